@@ -85,3 +85,82 @@ Proof. exact ex_results. Qed.
 Example C12_attach_nonvacuous :
   r_ret ex_ra = 20 /\ strict_valid ex_dict (r_out ex_ra) = Some ex_b1 /\ strict_valid [] (r_out ex_ra) = None.
 Proof. exact ex_attach. Qed.
+
+(* ================================================================ HC, lz4mid levels (compression levels 1 and 2)
+   - C12_hc_mid_loadDict: LZ4_loadDictHC of ANY size at an lz4mid level: only the last min(size, 64 KB) bytes are designated,
+     dictLimit = lowLimit = 64 KB, every entry of both hash tables (LZ4MID_fillHTable, both loops) is an index below
+     64 KB + dictSize, the context is clean and can serve as a dictionary context ([d_ok]: this includes [dsearch_ok] -
+     every table entry is 0 or an index of the dictionary's own prefix, which is at most 64 KB long - what the in-place
+     search LZ4MID_searchExtDict needs to stay inside the dictionary buffer).
+   - C12_hc_mid_loadDict_roundtrip: loadDictHC + a block ANYWHERE in memory decodes with the dictionary bytes.
+   - C12_hc_mid_attach_roundtrip: LZ4_attach_HC_dictionary onto a working stream that has not started, both streams at
+     lz4mid levels: whether the dictionary context is copied (first block > 4 KB) or searched in place (usingDictCtxHc,
+     LZ4MID_searchExtDict = Model.HcMidDict.dict_search with gDictEndIndex = lowLimit), the block decodes with the
+     dictionary bytes.  Only the cross-strategy search (dictionary stream at a level >= 3, LZ4MID_searchHCDict) is NOT
+     modelled: direct oracle only. *)
+From LZ4V Require Import Model.HcEmit Model.HcMid Model.HcMidStream Proofs.HcMidStreamProofs Proofs.HcMidStreamHist Proofs.HcMidStreamExamples.
+
+Theorem C12_hc_mid_loadDict :
+  forall m c a n c' r,
+  0 <= n -> 0 <= a -> hs_loadDict m c a n = Some (c', r) ->
+  hs_ok c' /\ d_ok (hs_core c') /\ hs_dctx c' = None /\ r = Z.min n K64 /\
+  k_prefixStart (hs_core c') = a + n - r /\ k_end (hs_core c') = a + n /\
+  k_dictLimit (hs_core c') = K64 /\ k_lowLimit (hs_core c') = K64 /\ k_dirty (hs_core c') = false /\
+  is_mid (k_level (hs_core c')) = true.
+Proof. exact hs_loadDict_ok. Qed.
+Print Assumptions C12_hc_mid_loadDict.
+
+Theorem C12_hc_mid_loadDict_roundtrip :
+  forall m c a n c' r src k cap ret consumed out hw c'',
+  hmem_ok m -> 0 <= n -> 0 <= a -> 0 < src -> 0 <= k < 2147483648 -> 0 <= cap ->
+  hs_loadDict m c a n = Some (c', r) ->
+  hs_continue m c' src k cap = Some (HRes ret consumed out hw c'') ->
+  (compressBound k <= cap -> k <= LZ4_MAX_INPUT_SIZE -> 0 < ret) /\
+  (0 < ret -> ret = Z.of_nat (length out) /\ ret <= Z.max cap (compressBound k) /\ consumed = k /\
+              win_strict (load_list m a (Z.to_nat n)) out (load_list m src (Z.to_nat k))).
+Proof. exact hc_loadDict_roundtrip. Qed.
+Print Assumptions C12_hc_mid_loadDict_roundtrip.
+
+Theorem C12_hc_mid_attach_roundtrip :
+  forall m c0 d a n dc r src k cap ret consumed out hw c'',
+  hmem_ok m -> hs_ok c0 -> k_dirty (hs_core c0) = false -> k_prefixStart (hs_core c0) = 0 ->
+  0 <= n -> 0 <= a -> 0 < src -> 0 <= k < 2147483648 -> 0 <= cap ->
+  hs_loadDict m d a n = Some (dc, r) ->
+  hs_continue m (hs_attach c0 (Some dc)) src k cap = Some (HRes ret consumed out hw c'') ->
+  (compressBound k <= cap -> k <= LZ4_MAX_INPUT_SIZE -> 0 < ret) /\
+  (0 < ret -> ret = Z.of_nat (length out) /\ ret <= Z.max cap (compressBound k) /\ consumed = k /\
+              win_strict (load_list m a (Z.to_nat n)) out (load_list m src (Z.to_nat k))).
+Proof. exact hc_attach_roundtrip. Qed.
+Print Assumptions C12_hc_mid_attach_roundtrip.
+
+(* LZ4_saveDictHC while a dictionary context is attached (fix F18): fewer bytes saved than the prefix holds => the
+   dictionary is detached; the whole prefix saved => it stays; either way what the next call designates is a tail of H *)
+Theorem C12_hc_mid_saveDict_attached :
+  forall m c a n H,
+  hmem_ok m -> hs_ok c -> 0 < a -> (hs_dctx c = None \/ k_xlen (hs_core c) = 0) ->
+  (forall d, hs_dctx c = Some d -> a + K64 <= k_prefixStart d \/ k_end d <= a) ->
+  hhist_invd m (hs_core c) (hs_dctx c) H ->
+  hhist_invd (fst (fst (hs_saveDict m c a n))) (hs_core (snd (fst (hs_saveDict m c a n)))) (hs_dctx (snd (fst (hs_saveDict m c a n)))) H.
+Proof. exact hs_saveDict_histd. Qed.
+Print Assumptions C12_hc_mid_saveDict_attached.
+
+Example C12_hc_mid_nonvacuous :
+  hmem_ok ex_m /\
+  strict_valid ex_dict (ex_hout ex_hst1 (HContinue 3000 78 200)) = Some ex_b1 /\
+  strict_valid [] (ex_hout ex_hst1 (HContinue 3000 78 200)) = None.
+Proof. exact (conj ex_hmem ex_hresults). Qed.
+(* attach + a small first block: the dictionary context is searched in place (effective pair = fresh context, Some dictionary) *)
+Example C12_hc_mid_attach_nonvacuous :
+  d_ok (hs_core ex_hd) /\ hstream_pre (ex_m, ex_hc0) [] ex_hops_attach /\
+  htrace (ex_m, ex_hc0) ex_hops_attach = [Some (0, 0); Some (20, 78); Some (18, 63)] /\
+  hs_effective ex_m (snd ex_hst1a) 3000 78 = Some (k_init_internal (hs_core ex_hc0) 3000, Some (hs_core ex_hd)) /\
+  strict_valid ex_dict (ex_hout ex_hst1a (HContinue 3000 78 200)) = Some ex_b1 /\
+  strict_valid [] (ex_hout ex_hst1a (HContinue 3000 78 200)) = None.
+Proof. exact (conj ex_hd_ok (conj ex_hstream_pre_attach (conj ex_htrace_attach ex_hresults_attach))). Qed.
+(* the F18 history inside the theorems: attach, block, saveDictHC of 40 of 78 bytes, next block right after the saved bytes *)
+Example C12_hc_mid_f18_nonvacuous :
+  hstream_pre (ex_m, ex_hc0) [] ex_hops_f18 /\
+  htrace (ex_m, ex_hc0) ex_hops_f18 = [Some (0, 0); Some (20, 78); Some (40, 0); Some (0, 0); Some (49, 63)] /\
+  hs_dctx (snd ex_hst4_f18) = None /\
+  strict_valid (ex_dict ++ ex_b1) (ex_hout ex_hst4_f18 (HContinue 5040 63 200)) = Some ex_b2.
+Proof. exact (conj ex_hstream_pre_f18 (conj ex_htrace_f18 ex_hresults_f18)). Qed.
